@@ -14,11 +14,15 @@ using namespace nano;
 extern size_t g_max_workers;
 extern int    g_sched;
 extern long   g_tasks_run;
-inline size_t setup_workers(long threads, long sched)
+extern long   g_drains;
+extern long   g_arb_drain;
+inline size_t setup_workers(long threads, long sched, long arb_drain = -1)
 {
     g_max_workers = threads < 1 ? 1U : static_cast<size_t>(threads);
     g_sched       = static_cast<int>(sched);
     g_tasks_run   = 0;
+    g_drains      = 0;
+    g_arb_drain   = arb_drain;
     return g_max_workers;
 }
 
